@@ -446,7 +446,7 @@ impl Prop for C09 {
                 }
             }
             What::JavaHandshake => {
-                let hosts = ["".to_string(), "a".to_string(), crate::rsm::long_string(255), "zürich.例え.テスト".to_string(), "mc.example.org".to_string()];
+                let hosts = ["".to_string(), "a".to_string(), crate::rsm::long_string(255), "zürich.例え.テスト".to_string(), "mc.example.org".to_string(), crate::rsm::long_string(300), format!("{}é{}", "a".repeat(254), "b".repeat(10)), "例".repeat(100)];
                 let versions = crate::rsm::i32_alts(765);
                 let ports = crate::rsm::u16_alts(25565);
                 for h in &hosts {
